@@ -30,6 +30,22 @@
 const unsigned char *xv_phrase_p; size_t xv_phrase_n;
 unsigned xv_phrase_absorbed;
 
+/* C01/C03: which bytes of the *setting* may reach a digest: exactly the span
+   the method's documentation says is the salt (set by the method harness
+   from its specification-side parse, before the call).  */
+const unsigned char *xv_setting_p; size_t xv_salt_off, xv_salt_n; _Bool xv_salt_span_set;
+unsigned xv_salt_absorbed;
+
+static void xv_setting_flow (const void *data, size_t n)
+{
+  if (xv_salt_span_set && xv_setting_p != NULL && XV_SAME_OBJ (data, xv_setting_p))
+    {
+      XV_STUBPRE ("C01,C03", (const unsigned char *) data == xv_setting_p + xv_salt_off && n == xv_salt_n,
+                  "a digest update reading from the setting passes exactly the documented salt span (the same characters the output reproduces)");
+      if (xv_salt_absorbed < 1000000) xv_salt_absorbed++;
+    }
+}
+
 static void xv_phrase_flow (const void *data, size_t n)
 {
   if (xv_phrase_p != NULL && XV_SAME_OBJ (data, xv_phrase_p))
@@ -74,6 +90,7 @@ static void xv_phrase_flow (const void *data, size_t n)
                 #UPDATE ": context was initialised and not yet finalised");                      \
     XV_STUBPRE ("C04", n == 0 || XV_R_OK (data, n), #UPDATE ": data has n readable bytes");      \
     xv_phrase_flow (data, n);                                                                    \
+    xv_setting_flow (data, n);                                                                   \
     xv_##D##_upd_n = n;                                                                          \
   }                                                                                              \
   void FINAL (uint8_t *out, CTX_T *ctx)                                                          \
